@@ -1820,6 +1820,10 @@ class ApplyResult:
 
     def _set(self, i, obj):
         with self._mutex:
+            if self._event.is_set():
+                # already resolved: the outcome is final, a late or
+                # duplicate result must not change it or re-run callbacks.
+                return
             if self._on_timeout_cancel:
                 self._on_timeout_cancel(self)
             self._success, self._value = obj
